@@ -182,7 +182,11 @@ def one(case):
             # an empty rule, a duplicate declaration, an unused namespace: what the omitting preferences act on
             ast = ast + [('style', [G.gen_selector(rnd, 1)], []), ('style', [G.gen_selector(rnd, 1)],
                          [('top', [G.Comp('DIMENSION', '1px')], False), ('left', [G.Comp('NUMBER', '0')], False),
-                          ('top', [G.Comp('DIMENSION', '2px')], rnd.random() < 0.3)])]
+                          ('top', [G.Comp('DIMENSION', '2px')], rnd.random() < 0.3)] + (
+                             # the same name !important more than once: the last !important one is the effective one
+                             [('width', [G.Comp('DIMENSION', '1px')], True), ('width', [G.Comp('DIMENSION', '2px')], rnd.random() < 0.5),
+                              ('width', [G.Comp('DIMENSION', '3px')], True), ('width', [G.Comp('DIMENSION', '4px')], rnd.random() < 0.3)]
+                             if rnd.random() < 0.5 else []))]
             ast = [G.strip_ns(r) if not any(x[0] == 'namespace' and x[1] == 'p' for x in ast) else r for r in ast]
         src = G.render_sheet(ast, G.Layout(rnd) if seed % 2 else G.Layout(None), G.Respell(rnd) if seed % 3 == 0 else G.Plain())
         sheet = P.parse(src)
